@@ -292,6 +292,7 @@ var mutTokens = []string{
 	"[", "]", "(", ")", "[^", "[^1]", "[^1]: ", "[a]: /u \"t\"\n", "[a]", "[a][]", "[x](y)", "![", "](", "<", ">", "</", "<!--", "-->", "<?", "?>", "<![CDATA[", "]]>", "<!A", "<div>", "</div>", "<script>", "<pre>", "<a href=\"x\">",
 	"&", "&amp;", "&#", "&#x", "&#0;", "&#x110000;", "&copy;", "&colon;", "&Tab;", ";", "\\", "\\\\", "\\*", "\\\n", "  \n", "|", "| a | b |\n", "|---|---|\n", "|:-:|", ":", ": def\n", "\"", "'", "...", "--", "<<", ">>",
 	"{", "}", "{#id}", "{.c}", "{k=v}", "{id=1}", "{k=\"v\\", "{id=\"a<\"}", "{class=\"b&\"}", "{Class=1 .c}", " {.x}\n===\n", "<DIV>", "</DIV>", "<Table>", "&#x100000041;", "&#4294967361;", "`x\\|y\\|z`", "\\|", "||\n", "[^x][^x]", "-\n  ", "1.\n   ", "\\\t", "  \n", "`a\n", "\n---\n", "\n===\n", "[l\nm]", "(/u 't\nu')", "http://a.b/c", "www.a.b", "a@b.c", "javascript:", "[ ] ", "[x] ", "a", "b", "foo", "Bar", "x y", "1", "0",
+	"Www.a.bc", "WWW.A.BC", "wWw.", "ww.", "http //", "(c)", "(tm)", "1/2", ",,", "(x) ", "[1]", "^1", "\n; ", "\n~ ", "| = |\n", "|:=:|", "==", "^^", "\u0100", "\u00ff", "\u2003", "\u3000", "\\  \n\\",
 }
 
 type docGen struct {
